@@ -22,7 +22,7 @@ def gen_cases(tier, seed):
     rng = np.random.default_rng([seed, 1616])
     cases = []
     deltas = list(range(-40, 41))
-    n = 170 if tier == "quick" else 3000
+    n = 230 if tier == "quick" else 3000
     for i in range(n):
         target = ["data", "data", "_metadata"][i % 3]
         k = int(rng.integers(1, 7))
@@ -209,4 +209,4 @@ def coverage_extra(agg):
 
 
 def required(tier):
-    return {"updates_verified": 300, "deltaclass:-1..-7": 20, "deltaclass:<=-8": 20, "deltaclass:+1..+7": 20, "deltaclass:>=+8": 20, "deltaclass:0": 5}
+    return {"updates_verified": 300, "deltaclass:-1..-7": 15, "deltaclass:<=-8": 15, "deltaclass:+1..+7": 15, "deltaclass:>=+8": 15, "deltaclass:0": 5}
